@@ -468,6 +468,30 @@ def nonzero(a):
     return asarr(a).nonzero()
 
 
+def flatnonzero(a):
+    a = asarr(a)
+    flat = SArr((len(a.data),), list(a.data), a.dtype)
+    return flat.nonzero()[0]
+
+
+_ERRSTATE = dict(divide="warn", over="warn", under="ignore", invalid="warn")
+
+
+def seterr(all=None, divide=None, over=None, under=None, invalid=None):
+    old = dict(_ERRSTATE)
+    if all is not None:
+        for k in _ERRSTATE:
+            _ERRSTATE[k] = all
+    for k, v in (("divide", divide), ("over", over), ("under", under), ("invalid", invalid)):
+        if v is not None:
+            _ERRSTATE[k] = v
+    return old
+
+
+def geterr():
+    return dict(_ERRSTATE)
+
+
 def amax_(a, axis=None):
     return amax(a)
 
@@ -651,7 +675,7 @@ def build():
                  "tril", "triu", "diff", "cumsum", "transpose", "fill_diagonal", "sqrt", "square", "absolute",
                  "negative", "power", "sign", "where", "clip", "minimum", "maximum", "logical_or", "logical_and",
                  "logical_not", "isfinite", "isinf", "isnan", "isscalar", "isin", "count_nonzero", "array_equal",
-                 "allclose", "argsort", "nonzero", "nanmin", "nanmax", "prod", "dot", "einsum", "errstate"):
+                 "allclose", "argsort", "nonzero", "flatnonzero", "seterr", "geterr", "nanmin", "nanmax", "prod", "dot", "einsum", "errstate"):
         setattr(np, name, g[name])
     np.abs = absolute
     np.max = amax_
